@@ -106,6 +106,11 @@ def build(desc, memo=None):
             except AttributeError:
                 pass
         return o
+    if k == 'call':
+        # scenario built by a named deterministic builder (replayable from the description)
+        import importlib
+        modname, fname = desc['fn'].split(':')
+        return getattr(importlib.import_module(modname), fname)(*desc.get('args', []))
     if k in ('gexpr', 'gclass'):
         import spec.corpus as corpus
         return eval(desc['expr'], corpus.namespace())
@@ -288,6 +293,8 @@ def run_real(fn, args):
         raise
     except Exception as e:          # every escape is an outcome
         return ('raise', type(e), e)
+    except SystemExit as e:         # sys.exit() of command-line code
+        return ('raise', type(e), e)
 
 
 def outcome_desc(out):
@@ -348,6 +355,16 @@ def run_case(con, fn, argdescs):
         return res
     exp_fn = _method(con, 'expected')
     ens_fn = _method(con, 'ensures')
+    snap_fn = _method(con, 'snapshot')
+    snap = None
+    if snap_fn is not None:
+        import copy
+        try:
+            snap = copy.copy(snap_fn(*real_args))
+            snap = tuple(copy.copy(x) if isinstance(x, (list, dict)) else x for x in snap)
+        except Exception as e:
+            res['oracle_error'] = 'snapshot: %s: %s' % (type(e).__name__, e)
+            return res
     obs = run_real(fn, real_args)
     res['observed'] = outcome_desc(obs)
     ok = True
@@ -364,7 +381,7 @@ def run_case(con, fn, argdescs):
         try:
             result = obs[1] if obs[0] == 'return' else None
             exc = obs[1] if obs[0] == 'raise' else None
-            e_ok = bool(ens_fn(*(real_args + [result, exc])))
+            e_ok = bool(ens_fn(*(real_args + [result, exc] + ([snap] if snap is not None else []))))
         except Exception as e:
             res['oracle_error'] = 'ensures: %s: %s' % (type(e).__name__, e)
             return res
@@ -600,6 +617,17 @@ def main(argv):
         out = run_case(con, fn, req['args'])
     elif req['mode'] == 'search':
         out = search(con, fn, req.get('n', 200), req.get('seed', 0))
+        try:
+            if getattr(fn, '__pyvc_ast__', None) is not None:
+                out['source'] = {'file': fn.__code__.co_filename, 'lines': list(fn.__pyvc_lines__),
+                                 'sha256': fn.__pyvc_sha__, 'extraction_drops': fn.__pyvc_drops__}
+            else:
+                import inspect, hashlib
+                lines, start = inspect.getsourcelines(fn)
+                out['source'] = {'file': fn.__code__.co_filename, 'lines': [start, start + len(lines) - 1],
+                                 'sha256': hashlib.sha256(''.join(lines).encode('utf-8')).hexdigest()}
+        except Exception:
+            pass
     elif req['mode'] == 'case':
         names = ordered_args(con, None)
         try:
